@@ -43,4 +43,12 @@ def applyDeliverMany (e : EP) (ws : List WsIn) : EP × Res × List Ev :=
   let (e, evs) := settle (deliverMany e ws)
   (e, .unit, evs)
 
+/-- The stimulus `dropmany`: several `MuxStream`s are dropped back to back before the connection task
+    runs again (each posts its notification; handles that are not live are skipped), then the task
+    runs to quiescence — its notification loop takes them one by one, in order. In the fine-grained
+    pair model (`Model/Pair.lean`) this is `dropStream`, …, `dropStream`, `notif`, …, `notif`. -/
+def applyDropMany (e : EP) (hs : List Nat) : EP × Res × List Ev :=
+  let (e, evs) := settle (hs.foldl (fun e h => (appDropStream e h).1) e)
+  (e, .unit, evs)
+
 end Penguin.Mux
